@@ -87,13 +87,35 @@ SameConstIndex(T, a, b) == /\ IsConstIndex(T, a) /\ IsConstIndex(T, b)
 ArrayUpdMust(T) == {n \in OfKind(T, {"E.Assign"}) :
                        LET r == Kid(T, n, "r") IN
                        K(T, r) \in UpdateOps /\ SameConstIndex(T, Kid(T, n, "l"), Kid(T, r, "l"))}
-ArrayUpdMay(T)  == {n \in OfKind(T, {"E.Assign"}) : K(T, Kid(T, n, "l")) = "E.ArraySubscript"}
+\* loosest reading: target an index expression, right-hand side (possibly parenthesised) one of the ten operators with
+\* an operand that may denote the same element -- not when the two bases are different identifiers or the two indexes
+\* are different literals (A[1] = A[2] + 1, B[1] = A[1] + 1), not for other operators (||, &&, **, comparisons) or
+\* calls (A[1] = f(A[1])): none of these can be written with a compound assignment
+PossiblySameElement(T, a, b) ==
+    /\ a # 0 /\ b # 0 /\ K(T, a) = "E.ArraySubscript" /\ K(T, b) = "E.ArraySubscript"
+    /\ ~(IsVar(T, Kid(T, a, "base")) /\ IsVar(T, Kid(T, b, "base")) /\ A(T, Kid(T, a, "base")).name # A(T, Kid(T, b, "base")).name)
+    /\ LET i == Kid(T, a, "index")
+           j == Kid(T, b, "index")
+       IN ~(i # 0 /\ j # 0 /\ K(T, i) = "E.NumberLiteral" /\ K(T, j) = "E.NumberLiteral"
+            /\ (A(T, i).value # A(T, j).value \/ A(T, i).exp # A(T, j).exp))
+RECURSIVE StripParens(_, _)
+StripParens(T, n) == IF n # 0 /\ K(T, n) = "E.Parenthesis" THEN StripParens(T, Kid(T, n, "e")) ELSE n
+ArrayUpdMay(T)  == {n \in OfKind(T, {"E.Assign"}) :
+                       LET l == Kid(T, n, "l")
+                           r == StripParens(T, Kid(T, n, "r"))
+                       IN /\ K(T, l) = "E.ArraySubscript" /\ r # 0 /\ K(T, r) \in UpdateOps
+                          /\ \/ PossiblySameElement(T, l, StripParens(T, Kid(T, r, "l")))
+                             \/ PossiblySameElement(T, l, StripParens(T, Kid(T, r, "r")))}
 
 \* cache_array_length
 IsLength(T, n) == K(T, n) = "E.MemberAccess" /\ A(T, n).member = "length"
 CacheLenMust(T) == {m \in N(T) : IsLength(T, m) /\ \E f \in OfKind(T, {"S.For"}) :
                                     Kid(T, f, "cond") # 0 /\ m \in UnderOrSelf(T, Kid(T, f, "cond"))}
-CacheLenMay(T)  == {m \in N(T) : IsLength(T, m) /\ \E f \in OfKind(T, {"S.For"}) : m \in Under(T, f)}
+\* a read in the initialisation part happens once: it IS the cached form, clearly not the pattern
+\* (reads in the update part or the body are repeated like the condition: left open)
+CacheLenMay(T)  == {m \in N(T) : IsLength(T, m) /\ \E f \in OfKind(T, {"S.For"}) :
+                                    /\ m \in Under(T, f)
+                                    /\ ~(Kid(T, f, "init") # 0 /\ m \in UnderOrSelf(T, Kid(T, f, "init")))}
 
 \* increment_decrement
 PostKinds == {"E.PostIncrement", "E.PostDecrement"}
